@@ -7,10 +7,10 @@ cd "$WT" || exit 2
 [ -f "patch$K.diff" ] || { echo "no patch$K.diff"; exit 2; }
 git checkout -q -- src
 git apply --check "patch$K.diff" || { echo "patch does not apply"; exit 2; }
-PYTHONPATH="$WT/src" /venv/bin/python "demo$K.py" >/tmp/vs_$PID_$K.clean 2>&1; CLEAN_RC=$?
+PYTHONPATH="$WT/src" /venv/bin/python "demo$K.py" >/tmp/vs_${PID}_${K}.clean 2>&1; CLEAN_RC=$?
 git apply "patch$K.diff"
 SUITE=$(PYTHONPATH="$WT/src" /venv/bin/python -m pytest -q -p no:cacheprovider --timeout=900 -n 6 2>&1 | tail -1)
-PYTHONPATH="$WT/src" /venv/bin/python "demo$K.py" >/tmp/vs_$PID_$K.mut 2>&1; MUT_RC=$?
+PYTHONPATH="$WT/src" /venv/bin/python "demo$K.py" >/tmp/vs_${PID}_${K}.mut 2>&1; MUT_RC=$?
 git checkout -q -- src
 echo "$PID-$K: clean demo rc=$CLEAN_RC, mutated demo rc=$MUT_RC, suite: $SUITE"
 OK=0
